@@ -83,7 +83,6 @@ fn setup() -> (Env, Address) {
 
 // HARNESS props=C14,C07 tier=quick profile=gas shape="pay_gas: payload <=4 bytes, strings <=2, amount full i128, 2 tokens, 4 principals"
 #[kani::proof]
-#[kani::unwind(132)]
 #[kani::stub(soroban_sdk::token::xc_TokenClient_transfer, spec_transfer)]
 #[kani::stub(soroban_sdk::token::xc_TokenClient_balance, spec_balance)]
 fn c14_pay_gas() {
@@ -103,7 +102,7 @@ fn c14_pay_gas() {
     });
     match r {
         Ok(()) => {
-            kani::assert(model::auth_of(&spender), "VERIF:C07:gas is paid only with the spender's authorisation");
+            kani::assert(model::auth_of(&spender), "VERIF:C07,C14:gas is paid only with the spender's authorisation");
             kani::assert(token.amount > 0, "VERIF:C14:a payment requires a positive amount");
             kani::assert(one_transfer(&token.address, &spender, &svc(), token.amount), "VERIF:C14:payment moves exactly the amount of the stated token from the spender to the service, once");
             kani::assert(unsafe { SVC_BAL } == b0 + token.amount, "VERIF:C14:service balance grows by exactly the payment");
@@ -122,7 +121,6 @@ fn c14_pay_gas() {
 
 // HARNESS props=C14,C07 tier=quick profile=gas shape="add_gas"
 #[kani::proof]
-#[kani::unwind(132)]
 #[kani::stub(soroban_sdk::token::xc_TokenClient_transfer, spec_transfer)]
 #[kani::stub(soroban_sdk::token::xc_TokenClient_balance, spec_balance)]
 fn c14_add_gas() {
@@ -136,7 +134,7 @@ fn c14_add_gas() {
     let r = model::with_contract(&svc(), || AxelarGasService::add_gas(env.clone(), sender.clone(), mid.clone(), spender.clone(), token.clone()));
     match r {
         Ok(()) => {
-            kani::assert(model::auth_of(&spender), "VERIF:C07:gas is topped up only with the spender's authorisation");
+            kani::assert(model::auth_of(&spender), "VERIF:C07,C14:gas is topped up only with the spender's authorisation");
             kani::assert(token.amount > 0, "VERIF:C14:a top-up requires a positive amount");
             kani::assert(one_transfer(&token.address, &spender, &svc(), token.amount), "VERIF:C14:top-up moves exactly the amount from the spender to the service, once");
             kani::assert(unsafe { SVC_BAL } == b0 + token.amount, "VERIF:C14:service balance grows by exactly the top-up");
@@ -155,7 +153,6 @@ fn c14_add_gas() {
 
 // HARNESS props=C14,C06 tier=quick profile=gas shape="collect_fees: amount vs balance full i128"
 #[kani::proof]
-#[kani::unwind(132)]
 #[kani::stub(soroban_sdk::token::xc_TokenClient_transfer, spec_transfer)]
 #[kani::stub(soroban_sdk::token::xc_TokenClient_balance, spec_balance)]
 fn c14_collect_fees() {
@@ -167,7 +164,7 @@ fn c14_collect_fees() {
     let r = model::with_contract(&svc(), || AxelarGasService::collect_fees(env.clone(), receiver.clone(), token.clone()));
     match r {
         Ok(()) => {
-            kani::assert(model::auth_of(&collector), "VERIF:C06:only the gas collector can collect fees");
+            kani::assert(model::auth_of(&collector), "VERIF:C06,C14:only the gas collector can collect fees");
             kani::assert(token.amount > 0 && token.amount <= b0, "VERIF:C14:collection needs a positive amount not exceeding what the service holds");
             kani::assert(one_transfer(&token.address, &svc(), &receiver, token.amount), "VERIF:C14:collection moves exactly the amount from the service to the receiver, once");
             kani::assert(unsafe { SVC_BAL } == b0 - token.amount && unsafe { SVC_BAL } >= 0, "VERIF:C14:service balance shrinks by exactly the collected amount and stays non-negative");
@@ -185,7 +182,6 @@ fn c14_collect_fees() {
 
 // HARNESS props=C14,C06 tier=quick profile=gas shape="refund"
 #[kani::proof]
-#[kani::unwind(132)]
 #[kani::stub(soroban_sdk::token::xc_TokenClient_transfer, spec_transfer)]
 #[kani::stub(soroban_sdk::token::xc_TokenClient_balance, spec_balance)]
 fn c14_refund() {
@@ -196,7 +192,7 @@ fn c14_refund() {
     let token = any_token();
     let w0 = model::storage_writes();
     model::with_contract(&svc(), || AxelarGasService::refund(env.clone(), mid.clone(), receiver.clone(), token.clone()));
-    kani::assert(model::auth_of(&collector), "VERIF:C06:only the gas collector can refund");
+    kani::assert(model::auth_of(&collector), "VERIF:C06,C14:only the gas collector can refund");
     kani::assert(token.amount >= 0 && token.amount <= b0, "VERIF:C14:a refund never exceeds what the service holds");
     kani::assert(one_transfer(&token.address, &svc(), &receiver, token.amount), "VERIF:C14:refund moves exactly the amount from the service to the receiver, once");
     kani::assert(unsafe { SVC_BAL } == b0 - token.amount, "VERIF:C14:service balance shrinks by exactly the refund");
@@ -208,7 +204,6 @@ fn c14_refund() {
 
 // HARNESS props=C14,C06 tier=quick profile=gas shape="constructor and gas_collector query"
 #[kani::proof]
-#[kani::unwind(132)]
 fn c14_constructor() {
     let env = Env::default();
     let owner = any::address(4);
